@@ -8,6 +8,7 @@ import (
 	"verifharness/world"
 
 	"github.com/volatiletech/authboss/v3"
+	"github.com/volatiletech/authboss/v3/defaults"
 	"github.com/volatiletech/authboss/v3/remember"
 )
 
@@ -15,6 +16,7 @@ func init() {
 	register("C10_Logout", C10_Logout)
 	register("C10_InvalidMethod", C10_InvalidMethod)
 	register("C10_LogoutBehindRemember", C10_LogoutBehindRemember)
+	register("C10_ShippedRouterMethod", C10_ShippedRouterMethod)
 }
 
 // C10_Logout: the logout handler under each configured method, from an arbitrary session over
@@ -109,4 +111,41 @@ func C10_LogoutBehindRemember() {
 	}
 	verif.Assert(!f.w.Cookies.Has(authboss.CookieRemember), "after logout behind the remember middleware no remember cookie is left")
 	_ = http.StatusOK
+}
+
+// C10_ShippedRouterMethod: "logout only reacts to the configured HTTP method", through the
+// shipped defaults.Router: a request to the logout path with any other method (HEAD, PUT,
+// PATCH, OPTIONS and the two other configurable methods) leaves the session and the cookies
+// exactly as they were.
+func C10_ShippedRouterMethod() {
+	verif.ReplayInInterpreter()
+	methods := []string{"GET", "POST", "DELETE"}
+	configured := methods[verif.Choice("configured", 3)]
+	var router *defaults.Router
+	f := newFlowWith(fullOpts(), func(w *world.World) {
+		w.AB.Config.Modules.LogoutMethod = configured
+		router = defaults.NewRouter()
+		w.AB.Config.Core.Router = router
+	})
+	reqMethods := []string{"GET", "POST", "DELETE", "HEAD", "PUT", "PATCH", "OPTIONS"}
+	method := reqMethods[verif.Choice("method", len(reqMethods))]
+	sw, cw := f.w.Session.WriteCalls, f.w.Cookies.WriteCalls
+	rec, panicked := f.serveHandler(router, method, "/logout")
+	if panicked {
+		return
+	}
+	if len(f.w.ErrH.Errs) > 0 {
+		return
+	}
+	_, loggedIn := f.preS.Lookup2(authboss.SessionKey)
+	_, stillIn := f.w.Session.Lookup2(authboss.SessionKey)
+	verif.Witness(verif.And(loggedIn, !stillIn), "logged-out")
+	if method != configured {
+		verif.Reach("other-method")
+		verif.Assert(f.w.Session.WriteCalls == sw && f.w.Cookies.WriteCalls == cw, "a request with another method than the configured one touches neither session nor cookies")
+		verif.Assert(f.w.Redirector.Count == 0, "a request with another method than the configured one is not answered as a logout")
+		verif.Assert(rec.Code == 404 || rec.Code == 405, "a request with another method than the configured one is refused")
+	} else {
+		verif.Assert(!stillIn, "the configured method logs out")
+	}
 }
